@@ -748,8 +748,12 @@ where
                     self.emptybuffer = true;
                     // but first we prune unneeded items:
                     if self.end < 0 && self.begin < 0 {
-                        //discard items from the begin which we do not want
-                        for _ in 0..self.begin.abs() {
+                        //discard items from the begin which we do not want (keep the last abs(begin) items)
+                        let excess = self
+                            .buffer
+                            .len()
+                            .saturating_sub(self.begin.unsigned_abs());
+                        for _ in 0..excess {
                             self.buffer.pop_front();
                         }
                     }
